@@ -20,14 +20,20 @@ import finalize_common as fc
 MANIFEST = dict(
     text="Machine-checked proof (Lean 4) over a step-by-step model of xact_base_t::finalize and the journal step: an accepted "
          "transaction's exact residual (costs applied, inferred postings included) prints as zero in every commodity; on the "
-         "exact fragment (no costs, amounts within display precision, implicit two-commodity rate included) it is exactly 0; no "
+         "exact fragment (no costs/lots, amounts within display precision, implicit two-commodity rate included) it is exactly 0; a "
+         "lot-priced posting with a cost ends at its basis cost lot price x quantity and exactly basis - cost goes to the balance; no "
          "null posting + a residual that does not print as zero => 'Transaction does not balance'; a rejected transaction is "
          "absent from the journal state and counted once; the -B grand total is the sum of per-transaction residuals and exactly "
          "0 on the exact fragment (induction over the journal). The statements and whole bodies of finalize / add_xact / the "
          "textual.cc error path are re-extracted and pinned by an rfl theorem; the model is run against the rebuilt binary on "
          "boundary, bounded-exhaustive and random transactions and journals; an independent Fraction oracle on ledger's own "
          "exit status, stderr and report rows supplies the failing input.",
-    note="Not modelled: lot annotations {..}/gain-loss, scaling commodities; hash-map enumeration order is a parameter (only the "
+    note="Lots are modelled: annotated commodities are commodities of their own (key BASE{exact price}[date](tag), the encoding of "
+         "C05's Model/Reports.lean), exchange()'s computed annotation, the basis cost and the gain/loss adjustment of xact.cc 296-352, "
+         "{{total}} and {=fixed} prices, compare_by_commodity order; observed through reg --lots with exact lot prices. "
+         "Not modelled: ((value expressions)) in annotations, @ =fixed costs, (@) virtual costs, the price-history side of exchange(), "
+         "scaling commodities; the pool's first-writer-wins sharing of annotation flags/precision (generators write one lot one way); "
+         "hash-map enumeration order is a parameter (only the "
          "zero-amount-top-posting corner of the implicit exchange depends on it). A residual of exactly half a display unit is "
          "decided by MPFR's binary approximation (model rounds half-even): not compared. Sub-display-unit residuals from costs "
          "accumulate in bal -B (6 x `3 XX @ $0.333` vs `$-1.00` ends in $-0.01): outside the property's quantifier, inside the "
@@ -52,13 +58,15 @@ def run(tier, seed):
     ctx.rule = ("transactions of 1-8 postings over 1-5 commodities (prefix/suffix, thousands marks, quoted, 0-8 decimals), "
                 "real/(virtual)/[bracketed] postings, @ and @@ costs, states, magnitudes 1e-8..1e20, display precision optionally "
                 "raised by an earlier transaction; families: boundary (residual 0 / half / one display unit, two commodities, "
-                "bucket, bracketed-only ...), bounded-exhaustive small, balanced-by-construction, off by >= 1 unit at a chosen "
+                "bucket, bracketed-only, cancelling commodities, lots bought/sold at/above/below the lot price ...), bounded-exhaustive small, "
+                "lots ({price} {{total}} {=fixed} [date] (tag) with/without @ and @@, sells, gains posted or elided), balanced-by-construction, off by >= 1 unit at a chosen "
                 "posting, implicit two-commodity rate, sub-unit cost residuals, oddities; journals of 3-12 transactions with "
                 "bucket directives. non-trivial = >= 2 commodities or a cost or a bracketed posting or |q| > 1e9 or an elided "
                 "amount not in last position; distinct by journal text")
     ctx.assumptions = ["GMP rational arithmetic is exact", "commodity display precision = max decimals of the posting amounts read so far "
                        "(costs are parsed with PARSE_NO_MIGRATE)", "hash-map enumeration order of the residual is a model parameter",
-                       "lot annotations / gain-loss and scaling commodities are outside the model and the generators",
+                       "a lot-priced posting with a cost is valued at its basis cost (lot price x quantity) when price and cost share a commodity (xact.cc 301-327)",
+                       "value-expression annotations, fixed (@ =) and virtual ((@)) costs and scaling commodities are outside the model and the generators",
                        "exactly-half-a-display-unit residuals are not compared (MPFR tie)"]
     if not ctx.prepare():
         return ctx.finish()
@@ -82,7 +90,7 @@ def run(tier, seed):
         off = rng.randint(0, step - 1)
         cases += exh[off::step]
     for fam, n in ((g.balanced, 150), (g.off_by, 150), (g.implicit, 60), (g.sub_unit, 80), (g.single, 30),
-                   (g.one_null, 40), (g.two_nulls, 15), (g.oddities, 30), (g.cancelling, 80)):
+                   (g.one_null, 40), (g.two_nulls, 15), (g.oddities, 30), (g.cancelling, 80), (g.lots, 200)):
         cases += [fam() for _ in range(n * k)]
     fc.run_cases(ctx, cases, fc.oracle_c01)
     journals = []
@@ -92,6 +100,8 @@ def run(tier, seed):
         journals.append(fc.gen_journal(rng, rng.randint(3, 12), p_bad=0.0, exact_only=False))
     for i in range(15 * k):
         journals.append(fc.gen_journal(rng, rng.randint(3, 12), p_bad=0.25, exact_only=True))
+    for i in range(10 * k):
+        journals.append(fc.gen_lot_journal(rng, rng.randint(3, 10)))
     # the remark of DESIGN §5 C01: many sub-unit residuals add up (model correspondence only)
     six = []
     for i in range(6):
